@@ -1594,6 +1594,18 @@ class SInt:
         self._nz(self.z)
         return SInt(z3.simplify(z - self.z * self._floordiv(z, self.z)))
 
+    def __divmod__(self, o):
+        q = self.__floordiv__(o)
+        if q is NotImplemented:
+            return NotImplemented
+        return q, self.__mod__(o)
+
+    def __rdivmod__(self, o):
+        q = self.__rfloordiv__(o)
+        if q is NotImplemented:
+            return NotImplemented
+        return q, self.__rmod__(o)
+
     @staticmethod
     def _nz(z):
         if z3.is_int_value(z):
